@@ -11,7 +11,7 @@ META = {
              'consumed, or an ancestor of the target, root cut/remove, `to=` misuse; plus replay of the repository golden put cases whose recorded result is an error. '
              'Faults are never injected into pfst internals. Oracle at every raise: source, ast.dump(include_attributes), root identity, a.f links equal the entry '
              'snapshot, no entry for the root in fst_core._MODIFYING; then the next valid edit must succeed and satisfy the C01 oracle. A cell is (fault kind, op, '
-             'target type, raise site = innermost pfst frame).'),
+             'target type, raise site = innermost pfst frame). Mandatory-delete requests cover conditionally mandatory fields too (ExceptHandler.type of except*, Raise.exc with a cause, AnnAssign.annotation ...).'),
     'budget': {'quick': 50, 'thorough': 900},
     'floors': {'quick': {'failed_requests_checked': 8000, 'raise_sites': 0, 'followup_edits_ok': 3000, '#cells': 400},
                'thorough': {'failed_requests_checked': 150000, 'followup_edits_ok': 50000, '#cells': 1500}},
